@@ -7,6 +7,7 @@ import (
 	"fmt"
 	"io/ioutil"
 	"net"
+	"net/url"
 	"path/filepath"
 	"strings"
 	"testing"
@@ -257,6 +258,261 @@ func verifCorruptExtensionProbe(env *verifEnv, res *verifResult, keys *verifKeys
 	return malformedCases
 }
 
+// ---------------------------------------------------------------- refresh requests with every form parameter
+//
+// "Refreshing yields a certificate for the same identity and the same netblocks": whatever the
+// request carries.  Every parameter the minting endpoint knows (identity, requestor_netblock,
+// target_netblock, pubkey, duration) and a few it does not, with values equal to / narrower than /
+// wider than / disjoint from what the presented certificate holds, and malformed ones, in the body
+// and in the query string.
+
+type c11Form struct {
+	note  string
+	body  url.Values // besides pubkey
+	query url.Values
+}
+
+func c11WiderBlocks(b c11Block) []c11Block {
+	var out []c11Block
+	for _, k := range []int{1, 2, 8, 16, b.p} {
+		if b.p-k >= 0 && k > 0 {
+			// the wider block that contains b ...
+			out = append(out, c11Block{ip: b.ip, p: b.p - k}.masked())
+			// ... and a wider block written with b's own base address (net.ParseCIDR masks it)
+			out = append(out, c11Block{ip: b.ip, p: b.p - k})
+		}
+	}
+	return out
+}
+
+func c11NarrowerBlocks(b c11Block) []c11Block {
+	var out []c11Block
+	m := b.masked()
+	for _, k := range []int{1, 8, 32 - b.p} {
+		if k > 0 && b.p+k <= 32 {
+			out = append(out, c11Block{ip: m.ip, p: b.p + k})
+			var size uint32 = 0xffffffff
+			if b.p > 0 {
+				size = (uint32(1) << uint(32-b.p)) - 1
+			}
+			out = append(out, c11Block{ip: u32ip(m.u32() | size), p: b.p + k}.masked())
+		}
+	}
+	return out
+}
+
+func c11Forms(blocks []c11Block, identity string) []c11Form {
+	var out []c11Form
+	cidrs := func(bl []c11Block) []string {
+		var s []string
+		for _, b := range bl {
+			s = append(s, b.cidr())
+		}
+		return s
+	}
+	var wider, narrower []c11Block
+	for _, b := range blocks {
+		wider = append(wider, c11WiderBlocks(b)...)
+		narrower = append(narrower, c11NarrowerBlocks(b)...)
+	}
+	netParams := []string{"requestor_netblock", "target_netblock"}
+	addNet := func(note string, vals []string) {
+		for _, pn := range netParams {
+			out = append(out, c11Form{note: pn + " " + note, body: url.Values{pn: vals}})
+		}
+		out = append(out, c11Form{note: "requestor_netblock and target_netblock " + note, body: url.Values{"requestor_netblock": vals, "target_netblock": vals}})
+		out = append(out, c11Form{note: "requestor_netblock (query string) " + note, query: url.Values{"requestor_netblock": vals}})
+	}
+	addNet("equal", cidrs(blocks))
+	for _, w := range wider {
+		addNet("wider "+w.cidr(), []string{w.cidr()})
+	}
+	if len(wider) > 0 {
+		addNet("equal plus wider", append(cidrs(blocks), wider[0].cidr()))
+	}
+	for _, n := range narrower {
+		addNet("narrower "+n.cidr(), []string{n.cidr()})
+	}
+	addNet("disjoint", []string{"203.0.113.0/24"})
+	addNet("everything", []string{"0.0.0.0/0"})
+	addNet("equal plus disjoint", append(cidrs(blocks), "203.0.113.0/24"))
+	for _, bad := range []string{"", "10.0.0.0", "10.0.0.0/33", "10.0.0.0/-1", "x", "::/0", "::ffff:10.0.0.0/104", "10.0.0.0/8,11.0.0.0/8", "10.0.0.0/8 ", "0x0a.0.0.0/8", "10.0.0/8"} {
+		addNet(fmt.Sprintf("malformed %q", bad), []string{bad})
+	}
+	for _, id := range []string{identity, strings.ToUpper(identity), strings.ToLower(identity), "svc-automation", "Deploy-Bot", "deploy-bot", "alice", "admin", "", "root", identity + " "} {
+		out = append(out, c11Form{note: fmt.Sprintf("identity %q", id), body: url.Values{"identity": {id}}})
+		out = append(out, c11Form{note: fmt.Sprintf("identity %q (query string)", id), query: url.Values{"identity": {id}}})
+	}
+	for _, d := range []string{"1h", "2000h", "-1h", "x"} {
+		out = append(out, c11Form{note: "duration " + d, body: url.Values{"duration": {d}}})
+	}
+	for _, pn := range []string{"netblock", "netblocks", "requestor_netblocks", "requestor-netblock", "RequestorNetblocks", "cidr", "role", "username", "user", "cn", "ip", "remote_addr"} {
+		v := "0.0.0.0/0"
+		if pn == "role" || pn == "username" || pn == "user" || pn == "cn" {
+			v = "admin"
+		}
+		out = append(out, c11Form{note: "unknown parameter " + pn, body: url.Values{pn: {v}}})
+	}
+	// the whole minting form, for another identity and the whole address space
+	out = append(out, c11Form{note: "complete minting form for another identity and 0.0.0.0/0", body: url.Values{"identity": {"Deploy-Bot"}, "requestor_netblock": {"0.0.0.0/0"}, "target_netblock": {"0.0.0.0/0"}, "duration": {"2000h"}}})
+	return out
+}
+
+func c11CertBlocks(c *x509.Certificate) ([]c11Block, bool) {
+	nets, err := certgen.ExtractIPNetsFromIPRestrictedX509(c)
+	if err != nil {
+		return nil, false
+	}
+	var got []c11Block
+	for _, n := range nets {
+		ones, _ := n.Mask.Size()
+		ip4 := n.IP.To4()
+		if ip4 == nil {
+			return nil, false
+		}
+		got = append(got, c11Block{ip: [4]byte{ip4[0], ip4[1], ip4[2], ip4[3]}, p: ones})
+	}
+	return got, true
+}
+
+func c11InsideAny(blocks []c11Block, p c11Peer) bool {
+	if p.kind != "v4" && p.kind != "mapped" {
+		return false
+	}
+	for _, b := range blocks {
+		if b.inside(p.a) {
+			return true
+		}
+	}
+	return false
+}
+
+func c11RefreshFormStage(env *verifEnv, res *verifResult, keys *verifKeys, roleCA *x509.Certificate, mint func([]c11Block) *x509.Certificate) (cases, idx []string) {
+	certBlocks := [][]c11Block{
+		{{ip: [4]byte{10, 0, 0, 0}, p: 24}},   // at the very start of 10.0.0.0/8, /16, /23 ...
+		{{ip: [4]byte{10, 1, 4, 0}, p: 22}},   // in the middle of its parents
+		{{ip: [4]byte{192, 168, 0, 0}, p: 25}},
+		{{ip: [4]byte{172, 16, 0, 0}, p: 12}},
+		{{ip: [4]byte{10, 9, 8, 7}, p: 32}},
+		{{ip: [4]byte{128, 0, 0, 0}, p: 1}},
+		{{ip: [4]byte{10, 0, 0, 0}, p: 24}, {ip: [4]byte{192, 168, 1, 0}, p: 24}},
+	}
+	if !verifThorough() {
+		certBlocks = append(certBlocks[:2], certBlocks[6])
+	}
+	for _, raw := range certBlocks {
+		cert := mint(raw)
+		if cert == nil {
+			res.hit(verifHit{Key: "C11:harness:mint", Oracle: "harness", What: "minting failed", Case: fmt.Sprint(raw)})
+			continue
+		}
+		identity := cert.Subject.CommonName
+		var oldExt []byte
+		for _, e := range cert.Extensions {
+			if e.Id.Equal(c11OID) {
+				oldExt = e.Value
+			}
+		}
+		inside := c11PeerV4(u32ip(raw[0].masked().u32() + 0)) // the network address is inside
+		forms := c11Forms(raw, identity)
+		for fi, f := range forms {
+			if !verifThorough() && len(raw) > 1 && fi%3 != 0 {
+				continue
+			}
+			body := url.Values{"pubkey": {keys.derPubRU}}
+			for k, v := range f.body {
+				body[k] = v
+			}
+			target := refreshRoleRequestingCertPath
+			if f.query != nil {
+				target += "?" + f.query.Encode()
+			}
+			req := verifNewRequest("POST", target, body)
+			withTLS(req, [][]*x509.Certificate{{cert, roleCA}}, inside.addr)
+			rr, pan := env.serve(req)
+			res.bump("refresh-form")
+			res.bump(fmt.Sprintf("refresh-form_%d", rr.Code))
+			cs := map[string]interface{}{"blocks": fmt.Sprint(raw), "identity": identity, "peer": inside.addr, "form": f.note, "body": body.Encode(), "query": f.query.Encode()}
+			if pan {
+				res.hit(verifHit{Key: "C11:panic:refresh", Oracle: "panic", What: "refresh handler panicked on form: " + f.note, Case: cs})
+			}
+			ok := rr.Code == 200
+			var got []c11Block
+			newCN := ""
+			if ok {
+				nc := verifParseCertBody(rr.Body.Bytes())
+				if nc == nil || nc.x509 == nil {
+					res.hit(verifHit{Key: "C11:refresh-changed", Oracle: "refreshed certificate has another identity or other netblocks", What: "refresh answered 200 without a certificate (" + f.note + ")", Case: cs})
+					continue
+				}
+				newCN = nc.cn
+				var newExt []byte
+				for _, e := range nc.x509.Extensions {
+					if e.Id.Equal(c11OID) {
+						newExt = e.Value
+					}
+				}
+				gotBlocks, okx := c11CertBlocks(nc.x509)
+				got = gotBlocks
+				if !okx || newCN != identity || oldExt == nil || string(oldExt) != string(newExt) {
+					res.hit(verifHit{Key: "C11:refresh-changed", Oracle: "refreshed certificate has another identity or other netblocks",
+						What: fmt.Sprintf("refresh of the certificate for %s %v with %s returned a certificate for %q %v", identity, raw, f.note, newCN, got), Case: cs,
+						Observed: map[string]interface{}{"identity": newCN, "blocks": fmt.Sprint(got)}})
+				}
+				// second step: the refreshed certificate from outside the blocks of the presented one
+				var outside []c11Peer
+				for _, b := range append(append([]c11Block{}, got...), c11WiderBlocks(raw[0])...) {
+					for _, p := range c11Peers(b, 0x5bd1e995) {
+						if (p.kind == "v4" || p.kind == "mapped") && !c11InsideAny(raw, p) {
+							outside = append(outside, p)
+						}
+					}
+				}
+				for _, q := range []c11Peer{c11PeerV4([4]byte{203, 0, 113, 9}), c11PeerV4([4]byte{10, 99, 0, 1}), c11PeerV4([4]byte{127, 0, 0, 1})} {
+					if !c11InsideAny(raw, q) {
+						outside = append(outside, q)
+					}
+				}
+				tried := map[string]bool{}
+				for _, q := range outside {
+					if tried[q.addr] {
+						continue
+					}
+					tried[q.addr] = true
+					if okv, _ := certgen.VerifyIPRestrictedX509CertIP(nc.x509, q.addr); okv {
+						res.hit(verifHit{Key: "C11:refreshed-reaches-outside", Oracle: "a refreshed certificate is accepted from outside the netblocks of the certificate it was refreshed from",
+							What: fmt.Sprintf("certificate for %v refreshed with %s is accepted from %s", raw, f.note, q.addr), Case: cs, Observed: q.addr})
+						req2 := verifNewRequest("POST", refreshRoleRequestingCertPath, url.Values{"pubkey": {keys.derPubRU}})
+						withTLS(req2, [][]*x509.Certificate{{nc.x509, roleCA}}, q.addr)
+						if rr2, _ := env.serve(req2); rr2.Code == 200 {
+							res.hit(verifHit{Key: "C11:refresh-outside", Oracle: "refresh succeeds from outside the netblocks",
+								What: fmt.Sprintf("certificate for %v, refreshed with %s, refreshes again from %s", raw, f.note, q.addr), Case: cs, Observed: q.addr})
+						}
+						break
+					}
+				}
+			}
+			res.eval(fmt.Sprintf("refresh-form|%v|%s|%d|%v", raw, f.note, rr.Code, got), ok)
+			var formPairs []string
+			for k, vs := range body {
+				if k == "pubkey" {
+					continue
+				}
+				for _, v := range vs {
+					formPairs = append(formPairs, fmt.Sprintf("(%s, %s)", coqPacked([]byte(k)), coqPacked([]byte(v))))
+				}
+			}
+			var masked []c11Block
+			for _, b := range raw {
+				masked = append(masked, b.masked())
+			}
+			cases = append(cases, fmt.Sprintf("(%s, %s, %s, [%s], %s, %s, %s)", coqPacked([]byte(identity)), c11CoqBlocks(masked), inside.coq(), strings.Join(formPairs, "; "), coqBool(ok), coqPacked([]byte(newCN)), c11CoqBlocks(got)))
+			idx = append(idx, fmt.Sprintf("refresh-form blocks=%v identity=%s peer=%s form=%q status=%d new_identity=%q new_blocks=%v", raw, identity, inside.addr, f.note, rr.Code, newCN, got))
+		}
+	}
+	return cases, idx
+}
+
 var c11Identities = []string{"svc-automation", "Deploy-Bot", "deploy-bot", "SVC.Upper_Case-1"}
 
 func TestVerif_C11(t *testing.T) {
@@ -343,7 +599,8 @@ func TestVerif_C11(t *testing.T) {
 			}
 			got = append(got, c11Block{ip: [4]byte{ip4[0], ip4[1], ip4[2], ip4[3]}, p: ones})
 		}
-		extractCases = append(extractCases, fmt.Sprintf("(%s, %s, %s)", c11CoqBlocks(blocks), coqBool(err == nil && !pan), c11CoqBlocks(got)))
+		// the model gets the blocks AS REQUESTED (any address of the block) and canonicalises them itself
+		extractCases = append(extractCases, fmt.Sprintf("(%s, %s, %s)", c11CoqBlocks(raw), coqBool(err == nil && !pan), c11CoqBlocks(got)))
 		same := err == nil && !pan && len(got) == len(blocks)
 		for i := range blocks {
 			if same && got[i] != blocks[i] {
@@ -371,7 +628,7 @@ func TestVerif_C11(t *testing.T) {
 			}
 			res.eval(fmt.Sprintf("verify|%v|%s|%v", blocks, p.addr, ok), inside)
 			res.bump("peer:" + p.kind)
-			verifyCases = append(verifyCases, fmt.Sprintf("(%s, %s, %s)", c11CoqBlocks(blocks), p.coq(), coqBool(ok)))
+			verifyCases = append(verifyCases, fmt.Sprintf("(%s, %s, %s)", c11CoqBlocks(raw), p.coq(), coqBool(ok)))
 			vidx = append(vidx, fmt.Sprintf("blocks=%v peer=%s obs=%v", blocks, p.addr, ok))
 			if pan {
 				res.hit(verifHit{Key: "C11:panic:verify", Oracle: "panic", What: "VerifyIPRestrictedX509CertIP panicked", Case: fmt.Sprint(blocks, p.addr)})
@@ -487,23 +744,28 @@ func TestVerif_C11(t *testing.T) {
 			}
 		}
 	}
+	refreshCases, refreshIdx := c11RefreshFormStage(env, res, keys, roleCA, mint)
 	malformedCases = verifCorruptExtensionProbe(env, res, keys, "C11")
 	// Coq
 	var sb strings.Builder
 	sb.WriteString(coqCaseHeader)
 	sb.WriteString("From KM Require Import Base.Cases Model.IPExt.\nOpen Scope N_scope.\n")
 	sb.WriteString("Definition verify_cases : list (list netblock * peer * bool) := [\n " + strings.Join(verifyCases, ";\n ") + "].\n")
-	sb.WriteString("Definition c11_verify_mismatches := Eval vm_compute in mismatches (fun c : list netblock * peer * bool => let '(bl, p, o) := c in negb (Bool.eqb (verify_ip (ext_of bl) p) o)) verify_cases.\nPrint c11_verify_mismatches.\n")
-	sb.WriteString("Definition c11_wf_mismatches := Eval vm_compute in mismatches (fun c : list netblock * peer * bool => let '(bl, p, o) := c in negb (forallb wf_block bl)) verify_cases.\nPrint c11_wf_mismatches.\n")
+	sb.WriteString("Definition c11_verify_mismatches := Eval vm_compute in mismatches (fun c : list netblock * peer * bool => let '(bl, p, o) := c in negb (Bool.eqb (verify_ip (rc_ext (mint_request [] bl)) p) o)) verify_cases.\nPrint c11_verify_mismatches.\n")
+	sb.WriteString("Definition c11_wf_mismatches := Eval vm_compute in mismatches (fun c : list netblock * peer * bool => let '(bl, p, o) := c in negb (forallb cidr_ok bl && forallb wf_block (map canon bl))) verify_cases.\nPrint c11_wf_mismatches.\n")
 	sb.WriteString("Definition extract_cases : list (list netblock * bool * list netblock) := [\n " + strings.Join(extractCases, ";\n ") + "].\n")
-	sb.WriteString("Definition c11_extract_mismatches := Eval vm_compute in mismatches (fun c : list netblock * bool * list netblock => let '(bl, ok, got) := c in match extract (ext_of bl) with Some m => negb (ok && (Nat.eqb (length m) (length got)) && forallb (fun xy => nb_eqb (fst xy) (snd xy)) (combine m got)) | None => ok end) extract_cases.\nPrint c11_extract_mismatches.\n")
+	sb.WriteString("Definition c11_extract_mismatches := Eval vm_compute in mismatches (fun c : list netblock * bool * list netblock => let '(bl, ok, got) := c in match extract (rc_ext (mint_request [] bl)) with Some m => negb (ok && (Nat.eqb (length m) (length got)) && forallb (fun xy => nb_eqb (fst xy) (snd xy)) (combine m got)) | None => ok end) extract_cases.\nPrint c11_extract_mismatches.\n")
 	sb.WriteString("Definition malformed_cases : list (list family * peer * bool) := [\n " + strings.Join(malformedCases, ";\n ") + "].\n")
 	sb.WriteString("Definition c11_malformed_mismatches := Eval vm_compute in mismatches (fun c : list family * peer * bool => let '(e, p, o) := c in negb (Bool.eqb (verify_ip e p) o)) malformed_cases.\nPrint c11_malformed_mismatches.\n")
-	sb.WriteString("Definition c11_ncases := Eval vm_compute in (length verify_cases + length extract_cases + length malformed_cases)%nat.\nPrint c11_ncases.\n")
+	sb.WriteString("(* refresh with a form: (identity, blocks, peer, form without the key, answered 200, identity and blocks of the returned certificate) *)\n")
+	sb.WriteString("Definition refresh_cases : list (bs * list netblock * peer * form * bool * bs * list netblock) := [\n " + strings.Join(refreshCases, ";\n ") + "].\n")
+	sb.WriteString("Definition c11_refresh_mismatches := Eval vm_compute in mismatches (fun c : bs * list netblock * peer * form * bool * bs * list netblock => let '(cn, bl, p, f, ok, ncn, nbl) := c in match refresh (minted cn bl) p f true with Some (id, m) => negb (ok && bs_eqb id ncn && blocks_eqb m nbl) | None => ok end) refresh_cases.\nPrint c11_refresh_mismatches.\n")
+	sb.WriteString("Definition c11_ncases := Eval vm_compute in (length verify_cases + length extract_cases + length malformed_cases + length refresh_cases)%nat.\nPrint c11_ncases.\n")
 	if err := ioutil.WriteFile(filepath.Join(verifOut(), "CasesC11.v"), []byte(sb.String()), 0644); err != nil {
 		t.Fatal(err)
 	}
 	ioutil.WriteFile(filepath.Join(verifOut(), "CasesC11.idx"), []byte(strings.Join(vidx, "\n")), 0644)
+	ioutil.WriteFile(filepath.Join(verifOut(), "CasesC11R.idx"), []byte(strings.Join(refreshIdx, "\n")), 0644)
 	res.sample(map[string]interface{}{"blocks": "10.1.4.0/22", "peer": "10.1.7.255:4711", "expected": true})
 	res.sample(map[string]interface{}{"corrupted_extension": "ipv4 family, bit string of 40 bits", "peer": "10.0.0.1:4711"})
 	if len(vidx) > 3 {
